@@ -8,9 +8,9 @@ EXPECT = {'below': False, 'first': True, 'inside': True, 'last': True, 'above': 
 
 def range_tables(chk, lib, rule='R5.1'):
     """truth tables of the three range predicates over the 6 order scenarios"""
-    preds = [('interp1d::Interp1D::is_in_range', 'x', lambda s: interp1d_obj(Unit())),
-             ('interp2d::Interp2D::is_in_x_range', 'x', lambda s: interp2d_obj(Unit())),
-             ('interp2d::Interp2D::is_in_y_range', 'y', lambda s: interp2d_obj(Unit()))]
+    preds = [('Interp1D::is_in_range', 'x', lambda s: interp1d_obj(Unit())),
+             ('Interp2D::is_in_x_range', 'x', lambda s: interp2d_obj(Unit())),
+             ('Interp2D::is_in_y_range', 'y', lambda s: interp2d_obj(Unit()))]
     n = 0
     for path, axis, mk in preds:
         b = anchor(chk, lib, path, rule)
@@ -128,30 +128,22 @@ def run(chk):
     n2 = guard_tables(chk, lib, 'R5.2', want_off=True, want_on=False)
     chk.floor('R5.1', 'range predicate table entries', n1, 18)
     chk.floor('R5.2', 'guard table scenarios evaluated', n2, 11 + 16 + 61)
-    # R5.5 defaults
-    for path, adt in (('interp1d::strategies::linear::Linear::new', 'Linear'),
-                      ('interp2d::strategies::bilinear::Bilinear::new', 'Bilinear'),
-                      ('interp1d::strategies::cubic_spline::CubicSpline::new', 'CubicSpline')):
-        b = anchor(chk, lib, path, 'R5.5')
-        if b is None:
+    # R5.5 defaults: the strategy a user gets without calling any setter rejects out-of-range queries
+    from ..strategies import default_of
+    for ty, fam in (('Linear', 'L'), ('Bilinear', 'B'), ('CubicSpline', 'S')):
+        if anchor(chk, lib, ty + '::new', 'R5.5') is None:
             continue
         try:
-            v = deref_all(Interp(lib, KModel()).call_def(b['def'], []))
-            flag = v.fields.get('extrapolate') if isinstance(v, Enum) else None
-            chk.ob('R5.5', "%s::new() sets extrapolate = false (got %r)" % (adt, flag), isinstance(flag, B) and flag.b is False,
-                   b['span'], 'default-' + adt)
+            for ctor, st in default_of(lib, ty):
+                if fam == 'B':
+                    o = run_bilinear(lib, None, 'below', 'inside', strategy=st)
+                    got = 'rejects' if (o.kind == 'err' and o.err == OOB) else '%s %s' % (o.kind, o.err or o.exc or '')
+                else:
+                    got = behaviour_class(lib, st, fam)
+                chk.ob('R5.5', "%s() gives a strategy with extrapolation off: it rejects out-of-range queries (got: %s)" % (ctor, got), got == 'rejects',
+                       lib.body(ctor)['span'], 'default-' + ctor)
         except (Unsupported, Diverge) as ex:
-            chk.ob('R5.5', "%s::new() is a plain constructor: %s" % (adt, ex), False, ex.where, 'default-' + adt)
-    for tr, selfty in (('std::default::Default', 'Linear'), ('std::default::Default', 'Bilinear'), ('std::default::Default', 'CubicSpline')):
-        bs = lib.bodies_matching(lambda d, b: d.endswith(' as std::default::Default>::default') and ('::' + selfty) in d and 'Boundary' not in d)
-        for b in bs:
-            try:
-                v = deref_all(Interp(lib, KModel()).call_def(b['def'], []))
-                flag = v.fields.get('extrapolate') if isinstance(v, Enum) else None
-                chk.ob('R5.5', "%s::default() sets extrapolate = false (got %r)" % (selfty, flag),
-                       isinstance(flag, B) and flag.b is False, b['span'], 'default-trait-' + selfty)
-            except (Unsupported, Diverge) as ex:
-                chk.ob('R5.5', "%s::default(): %s" % (selfty, ex), False, ex.where, 'default-trait-' + selfty)
+            chk.ob('R5.5', "%s::new() / default() / build are plain configuration steps: %s" % (ty, ex), False, ex.where, 'default-' + ty)
     from . import entry
     entry.batch_short_circuit(chk, lib, 'R5.3')
     chk.rule('R5.6', "CubicSpline::build selects Extrapolate::No whenever the extrapolation flag is off, whatever the boundary condition")
